@@ -139,6 +139,8 @@ func oracleDomain(a authority) string {
 	if _, err := netip.ParseAddr(h); err == nil {
 		return h
 	}
+	// the dot that ends a fully qualified name is not a label: example.com. is the domain example.com
+	h = strings.TrimSuffix(h, ".")
 	ss := strings.Split(h, ".")
 	if len(ss) < 3 {
 		return h
